@@ -1726,9 +1726,9 @@ def run(ctx):
         "failure at this site keeps the generic classes and is reported.  sqrt is taken by the harness (entry-wise delta_ik - M_ik / "
         "sqrt(Dv_i Dv_k) from the model's rational M and Dv).  Networks with an EMPTY edge are drawn for this function as "
         "predicate-only cases (the model answers `undefined` there): the expected matrix is that of the network without the empty "
-        "edge (h(v,e) = 0 for every v: the edge is in no term); the unchanged code returns it with sparse=True and an all-NaN "
-        "matrix with sparse=False - known finding sparse-dense-differ@empty-edge (class emitted only for that pattern; repair in "
-        "proposed_fixes/C12-normalized-empty-edge.diff).  A network with edges but no node at all is not drawn (both variants "
+        "edge (h(v,e) = 0 for every v: the edge is in no term); before /repo a2407af the code returned it with sparse=True and an all-NaN "
+        "matrix with sparse=False (found in the second hardening round, fixed; the class sparse-dense-differ@empty-edge is still emitted "
+        "for exactly that pattern and is no longer listed in known_findings).  A network with edges but no node at all is not drawn (both variants "
         "raise ValueError from a (0,0) @ (m,m) product)",
         "sparse == dense is a fact about scipy exhibited by the runs only",
         "held-object scripts, the large network, tuple labels (node labels / edge IDs that are tuples, also nested and holding "
